@@ -1120,6 +1120,22 @@ class Intervals:
             key = self.key_of(strip_casts(cond)) if cond is not None else None
             cv = self.eval(cond, st) if cond is not None else (None, None)
             labelled = []
+            # every case label of the switch (a block can carry several: `case 1: case 2:` chains)
+            all_labels = []
+            swn = nodes.get(blk.get("term")) if blk.get("term") is not None else None
+            for s in ss:
+                if s is None:
+                    continue
+                lab = nodes.get(cfg.blocks[s].get("label"))
+                cur_l = lab
+                while cur_l is not None and cur_l.get("k") == "CaseStmt":
+                    if cur_l.get("lo") is not None:
+                        all_labels.append((cur_l["lo"], cur_l.get("hi", cur_l["lo"])))
+                    nxt = kids(cur_l)[-1] if kids(cur_l) else None
+                    cur_l = nxt if nxt is not None and nxt.get("k") == "CaseStmt" else None
+            covered = False
+            if cv[0] is not None and cv[1] is not None and cv[1] - cv[0] <= 4096:
+                covered = all(any(lo <= v <= hi for lo, hi in all_labels) for v in range(cv[0], cv[1] + 1))
             for s in ss:
                 if s is None:
                     continue
@@ -1133,6 +1149,9 @@ class Intervals:
                     if key is not None:
                         ns[key] = m
                     labelled.append(rng)
+                elif covered and (lab is None or lab.get("k") == "DefaultStmt"):
+                    # every value the operand can take has a case: the default / fall-out edge is dead
+                    continue
                 outs.append((s, ns))
         elif len(ss) == 2 and "cond" in blk and ss[0] is not None and ss[1] is not None:
             cond = nodes.get(blk["cond"])
